@@ -25,6 +25,10 @@ under an authority, the path has no dot segment and is empty or rooted; every `R
 
 Updated after C15More.lean (+ Lemmas/DotMore.lean), which closes GAPS 1, 2, 3, and after fixes 7cae68c (with_path
 roots the argument BEFORE normalising) and 264b96e (parent of '/name' is '/'; it does not touch any statement here).
+Continued in C15HeadlineMore3.lean (headline theorems over C15Encoded.lean and C15More2.lean, which imports this file:
+the `encoded=True` entry points in general, URLs derived from one that carries dot segments under an authority, and join
+outside the hypotheses of `C15_headline_rfc_join` — GAPS 4, 5, 6).  The GAPS block at the end of THIS file is the one
+that is kept up to date.
 -/
 namespace Yarl
 open PathLemmas PathAlg WfLemmas EntryLemmas DotMore
@@ -416,22 +420,83 @@ GAPS:
     segments).  It is FALSE for join, by design (RFC 5.2 removes dot segments when resolving, with or
     without authority: `C15_entry_join_merge`; witness C15_headline_no_authority_verbatim_fails_for_join), which
     the property text does not exclude.
- 4. joinpath / join need the receiver's / operands' paths to be dot-free already; for reachable URLs this is
-    C15_headline_reachable (via C03Reach's CanonUrl invariant), whose `ReachC` restricts modifier
-    arguments to `op.ArgsCanon` (see C03Reach.lean) — URLs outside `ReachC` (encoded=True anywhere in the
-    history) are not covered.
- 5. PARTLY CLOSED by computed witnesses, see C15_headline_entry_fails_for_encoded_true: with_path(encoded=True),
-    build(encoded=True) and the encoded=True constructor store "/a/../b" under an authority with its dot segments
-    (they deliberately skip normalisation), whereas `/` + joinpath with encoded=True DO normalise when a new segment
-    contains '.' (`_make_child` tests `"." in path` whatever `encoded` is) — the earlier text of this item listed
-    joinpath among the skipping entry points, which was wrong.
-    Still open: no general theorem for the encoded=True entry points, and the property text ("however produced")
+ 4. PARTLY CLOSED by C15_derived_path_kept, C15_derived_make_child, C15_derived_parent, C15_derived_with_name_suffix,
+    C15_derived_join_ref_verbatim (C15Encoded.lean), C15_joinpath_dots_iff, C15_with_name_suffix_parent_dots_iff,
+    C15_join_base_dots_iff, C15_join_ref_dots_iff (C15More2.lean), see C15_headline_derived_path_kept,
+    C15_headline_derived_joinpath_iff (+ _exact, _instances), C15_headline_derived_name_suffix_parent_iff (+ _derived_parent,
+    _derived_with_name_suffix, _instances), C15_headline_derived_join_iff, C15_headline_derived_join_ref,
+    C15_headline_derived_join_ref_verbatim, C15_headline_derived_join_instances, C15_headline_derived_from_encoded_instance
+    (C15HeadlineMore3.lean).
+    The item was: joinpath / join need the receiver's / operands' paths to be dot-free already; for reachable URLs this
+    is C15_headline_reachable (via C03Reach's CanonUrl invariant), whose `ReachC` restricts modifier arguments to
+    `op.ArgsCanon` (see C03Reach.lean) — URLs outside `ReachC` (encoded=True anywhere in the history) were not covered.
+    Proved now, for ANY receiver `u` with an authority (no `ReachC`, no `CanonUrl`, whatever its stored path — a dot
+    segment under an authority can only come from `encoded=True`), operation by operation, as EQUIVALENCES
+    "the result has no dot segment ⇔ …":
+      scheme / user / password / host / port / query / fragment modifiers, relative(): path copied, ⇔ `u.path` had none;
+      `/`, joinpath (encoded=False AND encoded=True): ⇔ some argument text contains '.' (then the whole merged path is
+        normalised) OR `u.path` had none;
+      with_name, with_suffix, parent: ⇔ no dot segment among all segments BUT THE LAST of `u.path`
+        (hypotheses: `u.path` rooted; name / suffix arguments `PyStr`; for parent the path is not "/");
+      join, merge branch (reference without authority, same or no scheme, scheme in uses_relative): ⇔ `ref.path ≠ ""` OR
+        `base.path` had none; join with a reference that has its own authority: ⇔ `ref.path` has none; another scheme /
+        a scheme outside uses_relative: the result IS `ref`;
+      with_path(encoded=False) and the auto-encoding constructor / build(encoded=False) need nothing of the receiver
+        (C15_headline_entry_with_path, _entry_constructor, _entry_build: always clean).
+    So the first clause of the property is FALSE outside `ReachC` in exactly the situations the right-hand sides describe
+    (witnesses: C15_headline_derived_joinpath_instances, _derived_name_suffix_parent_instances, _derived_join_instances).
+    STILL OPEN: these are per-operation statements; there is no closure theorem over histories that contain
+    `encoded=True` steps (no C15 invariant over `ReachE`, ReachE.lean — there cannot be an unconditional one).  For a
+    receiver WITH dot segments the second clause ("equals remove_dot_segments of the merged path") is not compared with
+    §5.2.4: C15_headline_rfc_joinpath keeps its guard `NoDotSegments u.path`, and C15_headline_derived_joinpath_exact
+    gives the stored path only in terms of `normalize_path_segments`.  with_name / with_suffix / parent on a ROOTLESS
+    path next to an authority (only `build(path="x/y", encoded=True)`) are not covered.  The "%2E" statements of item 1
+    for with_path / joinpath still need `CanonUrl` of the receiver (`ReachC` URLs only).
+ 5. CLOSED (by stating exactly what holds — the clause itself is FALSE on these entry points, by design) by
+    C15_encoded_entry_points, C15_encoded_keeps_dot_segments, C15_make_child_any_mode, C15_encoded_make_child,
+    C15_childOf_path (C15Encoded.lean), C15_encoded_constructor_iff, C15_encoded_build_iff, C15_encoded_with_path_iff
+    (C15More2.lean), see C15_headline_encoded_constructor, C15_headline_encoded_build, C15_headline_encoded_with_path,
+    C15_headline_entry_fails_for_encoded_true_general, C15_headline_encoded_joinpath,
+    C15_headline_encoded_entry_points_instance (C15HeadlineMore3.lean); computed witnesses as before:
+    C15_headline_entry_fails_for_encoded_true.  Proved, in general: `URL(s, encoded=True)` stores the Appendix-B path of
+    the cleaned `s`, `build(path=p, encoded=True)` stores `p` (not even required to be rooted), `with_path(p,
+    encoded=True)` stores `p` rooted with '/' when non-empty and rootless — all three NEVER normalise, with or without
+    authority, so the result has no dot segment IFF the supplied path has none, and every rooted argument with a dot
+    segment is a counterexample to "however produced … contains no '.' or '..' segment".  `/` + joinpath with
+    encoded=True are the SAME function as without, with the identity in place of PATH_QUOTER: they DO normalise the
+    whole merged path (under an authority) when an argument contains a literal '.' ("%2E" is not decoded and does not
+    count) — the earlier text of this item listed joinpath among the skipping entry points, which was wrong.
+    Hypotheses: none beyond success of the call.  Remaining (not a proof gap): the property text ("however produced")
     does not mention the exemption.
- 6. (new) join outside the hypotheses of C15_headline_rfc_join / C15_headline_rfc_join_url is not compared with
-    §5.2.4: a base WITHOUT authority whose §5.2.3 target path is rootless and contains '.' (there `normalize_path`
-    works on a relative path, and `Rfc.removeDotSegments` is only related to it on rooted input: C15_headline_rfc).
+ 6. PARTLY CLOSED by C15_rfc_join_excluded_cases, C15_rfc_join_no_authority, C15_rfc_join_url_no_authority,
+    C15_rfc_join_authority_rootless_base, C15_rfc_join_authority_rootless_base_instances (C15More2.lean, over
+    C14More.lean), see C15_headline_rfc_join_excluded_cases, C15_headline_rfc_join_path_no_authority,
+    C15_headline_rfc_join_no_authority, C15_headline_rfc_join_fails_for_no_authority_escape,
+    C15_headline_rfc_join_authority_rootless_base, C15_headline_rfc_join_fails_for_authority_rootless_base
+    (C15HeadlineMore3.lean) — all but the two sub-cases named at the end.  Proved: the hypotheses of
+    C15_headline_rfc_join fail in EXACTLY two situations.  (b) base WITHOUT authority, base path empty or rootless,
+    reference path rootless, a '.' in the merged path — and more generally for EVERY base without authority (hypotheses at
+    URL level: scheme in uses_relative, reference relative to the base and without authority, `ref.path ≠ ""`): the stored
+    path is `normalize_path` of the §5.2.3 target, has no dot segment, and §5.2.4 of the target is that path with ONE '/'
+    in front exactly when the decidable condition `C14_deviates base.path ref.path` holds (a ".." pops the first
+    output segment); equal IFF it is false.  So "equals remove_dot_segments of the merged path" is FALSE there in general
+    (`URL("x/y").join(URL("../../c"))` has "c", the RFC "/c") — outside the first sentence's scope (no authority), a
+    deviation of the library already recorded under C14.  (a) base WITH an authority and a ROOTLESS non-empty path
+    (only `build(…, encoded=True)` / hand-made parts), rootless reference path: the stored path is given exactly —
+    `normalize_path(base.path + ref.path)` when the base path ends in '/', else §5.2.4 of "//" + (base.path[1:] up to its
+    last '/') + ref.path — and differs from the RFC (`b.join(URL("c"))` has "///c", the RFC "x/c").
     Under an authority with an empty-or-rooted base path — the scope of the property — the target is always rooted
     (second conjunct of C15_headline_rfc_join_url).  C15_headline_rfc_join_url also needs `ref.netloc = []`: a
-    reference with its own authority is taken as it is (C15_headline_entry_join_fails_for).
+    reference with its own authority is taken as it is (C15_headline_entry_join_fails_for; in general
+    C15_headline_derived_join_ref).
+    STILL OPEN (both inside case (a), i.e. reachable only through `build(…, encoded=True)`): with a base path ending in
+    '/' the relation of `normalize_path(base.path + ref.path)` to §5.2.4 is shown on instances only (the general relation
+    `C14_deviates` is proved for a base WITHOUT authority); a ROOTED reference path against such a base has no theorem.
+ 7. (new) Side conditions introduced by the theorems of items 4–6 that no theorem discharges: `PyStr` of the
+    with_name / with_suffix arguments (model artefact); `u.path = "/" ++ r` for with_name / with_suffix / parent and
+    `r ≠ ""` for parent; for join the case split on `ref.scheme`, `uses_relative`, `ref.netloc` is exhaustive
+    (C15_headline_derived_join_iff + _derived_join_ref + _derived_join_ref_verbatim; `uses_relative ⊆ uses_netloc` is
+    C14_relative_subset_authority, a computed fact about the generated tables).  The witnesses named "instances" are
+    evaluated in the model on both backends; that CPython agrees is the differential harness, not a proof.
 -/
 end Yarl
